@@ -1,3 +1,4 @@
 /- C14 — the reader builds the declared system: theorems about the reader model (C14Reader) and the component theorems of C17. -/
 import DsdVerif.Props.C17
 import DsdVerif.Props.C14Reader
+import DsdVerif.Props.C14Sigma
